@@ -402,10 +402,170 @@ fn run_plan(seq: &[PlanSym]) -> Result<(), (&'static str, String)> {
     Ok(())
 }
 
+
+// ------------------------------------------------------------------------------------------------
+// request side, real starter step: FetchPlan + PendingFetches::start_due_fetches + completion
+// ------------------------------------------------------------------------------------------------
+#[derive(Clone, Copy, Debug, PartialEq, Eq)]
+enum StSym {
+    NoteFull,
+    NoteTopo,
+    NoteRoutesX,
+    NoteRoutesY,
+    StartDue,
+    DoneFull,
+    DoneRoutes,
+    DoneTopo,
+}
+const ST_ALL: [StSym; 8] = [StSym::NoteFull, StSym::NoteTopo, StSym::NoteRoutesX, StSym::NoteRoutesY, StSym::StartDue, StSym::DoneFull, StSym::DoneRoutes, StSym::DoneTopo];
+impl StSym {
+    fn name(self) -> &'static str {
+        match self {
+            StSym::NoteFull => "note_full_needed",
+            StSym::NoteTopo => "note_topology",
+            StSym::NoteRoutesX => "note_client_routes(x)",
+            StSym::NoteRoutesY => "note_client_routes(y)",
+            StSym::StartDue => "start_due_fetches",
+            StSym::DoneFull => "full fetch completes",
+            StSym::DoneRoutes => "client-routes fetch completes",
+            StSym::DoneTopo => "topology fetch completes",
+        }
+    }
+}
+
+/// Reference for the request side. `need_*`: work noted and not yet covered by a fetch STARTED after the note
+/// (an owed full fetch covers all partial work noted before it starts). `fl_*`: fetches in flight.
+#[derive(Clone, Debug, Default, PartialEq, Eq)]
+struct StRef {
+    need_full: bool,
+    need_topo: bool,
+    need_pairs: BTreeSet<(String, u32)>,
+    fl_full: bool,
+    fl_routes: bool,
+    fl_topo: bool,
+}
+
+/// None = the sequence uses a disabled step (a completion of something not in flight): not a case.
+fn run_starter(seq: &[StSym], stats: Option<&AtomicU64>) -> Option<Result<(), (&'static str, String)>> {
+    let mut p = hook::StarterProbe::new();
+    let mut m = StRef::default();
+    let x: Vec<(String, u32)> = vec![("c1".into(), 1), ("c1".into(), 2)];
+    let y: Vec<(String, u32)> = vec![("c1".into(), 2), ("c2".into(), 3)];
+    // the sequence, then quiesce: complete everything, start, until nothing moves
+    let mut steps: Vec<StSym> = seq.to_vec();
+    let tail_from = steps.len();
+    for _ in 0..3 {
+        steps.extend([StSym::StartDue, StSym::DoneFull, StSym::DoneRoutes, StSym::DoneTopo]);
+    }
+    steps.push(StSym::StartDue);
+    for (i, s) in steps.iter().enumerate() {
+        let in_tail = i >= tail_from;
+        match s {
+            StSym::NoteFull => {
+                p.note_full_needed();
+                m.need_full = true;
+                m.need_topo = false;
+                m.need_pairs.clear();
+            }
+            StSym::NoteTopo => {
+                p.note_topology();
+                if !m.need_full {
+                    m.need_topo = true;
+                }
+            }
+            StSym::NoteRoutesX | StSym::NoteRoutesY => {
+                let pairs = if *s == StSym::NoteRoutesX { &x } else { &y };
+                p.note_client_routes(pairs);
+                if !m.need_full {
+                    m.need_pairs.extend(pairs.iter().cloned());
+                }
+            }
+            StSym::StartDue => {
+                p.start_due();
+                // what the starter must do: work for a busy slot waits in the plan, everything else starts
+                if m.need_full {
+                    if !m.fl_full {
+                        m = StRef { fl_full: true, ..StRef::default() };
+                    }
+                } else if !m.fl_full {
+                    if !m.need_pairs.is_empty() && !m.fl_routes {
+                        m.fl_routes = true;
+                        m.need_pairs.clear();
+                    }
+                    if m.need_topo && !m.fl_topo {
+                        m.fl_topo = true;
+                        m.need_topo = false;
+                    }
+                }
+            }
+            StSym::DoneFull | StSym::DoneRoutes | StSym::DoneTopo => {
+                let (which, flag) = match s {
+                    StSym::DoneFull => (0u8, &mut m.fl_full),
+                    StSym::DoneRoutes => (1, &mut m.fl_routes),
+                    _ => (2, &mut m.fl_topo),
+                };
+                if !*flag {
+                    if in_tail {
+                        continue;
+                    }
+                    return None;
+                }
+                *flag = false;
+                if !p.complete(which) {
+                    return Some(Err(("starter-completion", format!("completing fetch {which} was not reported by PendingFetches::poll after {:?}", seq.iter().map(|s| s.name()).collect::<Vec<_>>()))));
+                }
+            }
+        }
+        if let Some(c) = stats {
+            c.fetch_add(1, Ordering::Relaxed);
+        }
+        let owed = p.owed();
+        let fl = p.in_flight();
+        let names: Vec<&str> = steps[..=i].iter().map(|s| s.name()).collect();
+        let got_pairs: BTreeSet<(String, u32)> = owed.client_routes.iter().cloned().collect();
+        if (fl.full, fl.client_routes, fl.topology) != (m.fl_full, m.fl_routes, m.fl_topo) {
+            let key = if (fl.full && !m.fl_full) || (fl.client_routes && !m.fl_routes) || (fl.topology && !m.fl_topo) { "starter-invented-fetch" } else { "starter-owed-work-not-started" };
+            return Some(Err((key, format!("fetches in flight {fl:?}, expected full={} client_routes={} topology={} after {names:?}", m.fl_full, m.fl_routes, m.fl_topo))));
+        }
+        if m.need_full != owed.full {
+            let key = if m.need_full { "plan-full-fetch-forgotten" } else { "plan-invented-work" };
+            return Some(Err((key, format!("full fetch still needed: {}, owed by the plan: {} after {names:?}", m.need_full, owed.full))));
+        }
+        if !owed.full {
+            if m.need_topo != owed.topology {
+                let key = if m.need_topo { "plan-topology-work-lost" } else { "plan-invented-work" };
+                return Some(Err((key, format!("a peer-list re-read noted after the running topology fetch started is {}, the plan says owed: {} (in flight: {fl:?}) after {names:?}", if m.need_topo { "still needed" } else { "not needed" }, owed.topology))));
+            }
+            if m.need_pairs != got_pairs {
+                let key = if got_pairs.is_subset(&m.need_pairs) { "plan-routes-work-lost" } else { "plan-invented-work" };
+                return Some(Err((key, format!("client-routes pairs still needed {:?}, owed by the plan {got_pairs:?} (in flight: {fl:?}) after {names:?}", m.need_pairs))));
+            }
+        }
+    }
+    // quiesced: nothing in flight, nothing owed, nothing needed
+    if m != StRef::default() {
+        return Some(Err(("machinery:reference-did-not-quiesce", format!("{m:?}"))));
+    }
+    Some(Ok(()))
+}
+
 fn main() {
     vcore::quiet_panics();
     let r = Report::new("C19", "update-merge", "model_checking", "E-ENUM");
     if let Some(case) = r.replay_case() {
+        if let Some(p) = case["starter_ops"].as_array() {
+            let seq: Vec<StSym> = p.iter().filter_map(|x| ST_ALL.iter().copied().find(|s| Some(s.name()) == x.as_str())).collect();
+            println!("replaying worker steps {:?} (then: start / complete everything until quiet)", seq.iter().map(|s| s.name()).collect::<Vec<_>>());
+            match run_starter(&seq, None) {
+                Some(Err((k, w))) => {
+                    println!("  !! {w}");
+                    r.violation(k, &w, case.clone());
+                }
+                Some(Ok(())) => {}
+                None => vcore::machinery_error("replay case contains a disabled step"),
+            }
+            r.finish_replay();
+        }
         if let Some(p) = case["plan_ops"].as_array() {
             let seq: Vec<PlanSym> = p.iter().filter_map(|x| PLAN_ALL.iter().copied().find(|s| Some(s.name()) == x.as_str())).collect();
             println!("replaying FetchPlan steps {:?}", seq.iter().map(|s| s.name()).collect::<Vec<_>>());
@@ -472,12 +632,50 @@ fn main() {
             }
         });
     }
+    // request side with the REAL starter step and completion handling
+    let st_len = r.args.extra_value("--starter-len").and_then(|s| s.parse().ok()).unwrap_or(r.tier().pick(6usize, 8usize));
+    let starters = AtomicU64::new(0);
+    let starter_steps = AtomicU64::new(0);
+    for len in 0..=st_len {
+        let total = (ST_ALL.len() as u64).pow(len as u32);
+        vcore::par::for_range(jobs, total.div_ceil(4096), |chunk| {
+            for i in chunk * 4096..((chunk + 1) * 4096).min(total) {
+                let mut idx = i;
+                let seq: Vec<StSym> = (0..len)
+                    .map(|_| {
+                        let s = ST_ALL[(idx % 8) as usize];
+                        idx /= 8;
+                        s
+                    })
+                    .collect();
+                match run_starter(&seq, Some(&starter_steps)) {
+                    None => {}
+                    Some(res) => {
+                        starters.fetch_add(1, Ordering::Relaxed);
+                        if let Err((k, w)) = res {
+                            if k.starts_with("machinery") {
+                                vcore::machinery_error(&w);
+                            }
+                            r.violation(k, &w, json!({"starter_ops": seq.iter().map(|s| s.name()).collect::<Vec<_>>()}));
+                        }
+                    }
+                }
+            }
+        });
+        if r.violation_count() > 0 {
+            break;
+        }
+    }
+    r.eval(starters.load(Ordering::Relaxed));
+    r.counters.add("starter_sequences(real start_due_fetches + poll)", starters.load(Ordering::Relaxed));
+    r.counters.add("starter_steps_applied", starter_steps.load(Ordering::Relaxed));
+    r.note("starter_max_length", json!(st_len));
     use Ordering::Relaxed;
     let n_seq = seqs.load(Relaxed);
     let shapes = stats.shapes.lock().unwrap().len() as u64;
     r.eval(n_seq + plans.load(Relaxed));
     r.states.store(shapes, Relaxed);
-    r.transitions.store(stats.ops.load(Relaxed) + stats.recvs_with_value.load(Relaxed), Relaxed);
+    r.transitions.store(stats.ops.load(Relaxed) + stats.recvs_with_value.load(Relaxed) + starter_steps.load(Relaxed), Relaxed);
     r.traces_validated.store(0, Relaxed);
     r.nontrivial(shapes);
     for (k, v) in [
@@ -502,11 +700,14 @@ fn main() {
          2 x merge_client_routes_update, up/down hints on 2 addresses, recv} (+ the no-client-routes session: 7 symbols), each followed by recv / drop sender / recv / recv. \
          transitions = merge operations applied + values received; states = distinct_nontrivial = distinct multisets-in-order of merges that were coalesced into ONE received value \
          (distinct pending-value histories); traces_validated_against_impl = 0 (single-threaded, deterministic, no schedule to replay). Request side: every word of length <= \
-         fetch_plan_max_length over FetchPlan::{note_full_needed, note_topology, note_client_routes x2, drain}.",
+         fetch_plan_max_length over FetchPlan::{note_full_needed, note_topology, note_client_routes x2, drain}; and every word of length <= starter_max_length over \
+         {note_full_needed, note_topology, note_client_routes x2, the production PendingFetches::start_due_fetches, completion of the full / client-routes / topology fetch \
+         through the production PendingFetches::poll} (words completing a fetch that is not in flight are skipped), each followed by start/complete-all until quiet: after \
+         every step the plan owes exactly the work noted and not yet covered by a fetch started after the note, and the in-flight set is exactly what the starter must have started.",
     );
     r.set_exhaustive(true);
     r.assume("the consumer side is the cluster worker's apply_metadata_update reduced to plain data (full: replace topology/schema/routes; partial: replace peers, upsert/remove routes); building a real ClusterState is C04/C12 territory");
-    r.assume("request side covers FetchPlan merging only; that every pending RefreshRequest is eventually attached to a publish_metadata call runs through the control-connection loops and is exercised by the E-MOCK leg, not here");
+    r.assume("request side covers FetchPlan merging and the starter / completion steps on stand-in fetch futures (the real query futures are created by the production code on a placeholder control connection and dropped unpolled); how work_on_cc reacts to a fetch OUTCOME (e.g. a failed partial fetch owes a full one) is inline in its select loop and not reached; that every pending RefreshRequest is eventually attached to a publish_metadata call runs through the control-connection loops and is exercised by the E-MOCK leg, not here");
     let _: Value = json!(null);
     r.finish();
 }
